@@ -158,6 +158,11 @@ def check_cli_case(ctx, rng, index):
                     f.write(buf.getvalue())
                 rec.hit('cli-output-on-stdout')
             else:
+                if index % 2 == 0:
+                    data.cli(argv + ['-o', out])  # the same output file name used again
+                    import gc
+                    gc.collect()
+                    rec.hit('cli-output-file-name-reused')
                 status, exc = data.cli(argv + ['-o', out])
             if exc is not None or status != 0:
                 desc = core.describe_exception(exc) if exc else {'status': status}
